@@ -8,6 +8,7 @@ import asyncio
 import signal
 import socket
 import struct
+import threading
 
 import dns.asyncbackend
 import dns.asyncquery
@@ -29,7 +30,56 @@ import dns.zone
 ORIGIN = dns.name.from_text("example.")
 OTHER = dns.name.from_text("other.example.")
 _CREATED = []
-WATCHDOG_S = 20.0
+CPU_LIMIT_S = 60.0      # CPU seconds per job (ITIMER_VIRTUAL): catches busy loops, independent of machine load
+LAST_RESORT_S = 1800.0  # wall clock, only so that a job blocked in something unforeseen cannot hang the check for ever
+
+
+class Stuck(BaseException):
+    """The job can make no progress (deadlock / busy loop): reported as an event nobody matches."""
+
+
+class _DeadlockEvent(threading.Event):
+    def wait(self, timeout=None):
+        # the driver is single-threaded: nobody can ever set an event we would have to sleep on
+        if not self.is_set():
+            raise Stuck("wait on an event that nobody can set (a write transaction was left open)")
+        return True
+
+
+class _DeadlockLock:
+    def __init__(self):
+        self._lock = threading.Lock()
+
+    def acquire(self, blocking=True, timeout=-1):
+        if self._lock.acquire(False):
+            return True
+        if blocking:
+            raise Stuck("acquire of a lock this single thread already holds")
+        return False
+
+    def release(self):
+        self._lock.release()
+
+    def locked(self):
+        return self._lock.locked()
+
+    __enter__ = acquire
+
+    def __exit__(self, *a):
+        self._lock.release()
+
+
+class _ThreadingShim:
+    """Stands in for the `threading` module inside dns.versioned (this process only): hang detection that does not
+    depend on time.  dns.versioned.Zone.writer() sleeps on an Event while another write transaction is open."""
+    Lock = _DeadlockLock
+    Event = _DeadlockEvent
+
+    def __getattr__(self, name):
+        return getattr(threading, name)
+
+
+dns.versioned.threading = _ThreadingShim()
 
 
 def _tracked(cls):
@@ -154,10 +204,6 @@ def build_message(msg, req, query, relativize, via, from_wire_origin, multi=True
                                  one_rr_per_rrset=(req == "ixfr"))
 
 
-class Stuck(BaseException):
-    pass
-
-
 def state_of(ib):
     names = ("incremental", "expecting_SOA", "delete_mode", "done", "serial")
     if not all(hasattr(ib, n) for n in names):
@@ -172,10 +218,12 @@ class ScriptedSocket(socket.socket):
     """A socket object (dns.query insists on a socket.socket to recognise UDP) that never touches the
     network: it swallows what is sent and serves the scripted frames."""
 
-    def __init__(self, kind, frames, ev):
+    def __init__(self, kind, frames, ev, tail=b""):
         super().__init__(socket.AF_INET, kind)
         self._dgrams = list(frames)
-        self._buf = b"".join(struct.pack("!H", len(f)) + f for f in frames)
+        # TCP: the complete length-prefixed frames, then `tail` = the beginning of one more frame that the
+        # connection loses half-way (EOF inside a message); with tail = b"" the EOF falls on a message boundary
+        self._buf = b"".join(struct.pack("!H", len(f)) + f for f in frames) + tail
         self._ev = ev
         self.sent = []
 
@@ -206,9 +254,9 @@ class ScriptedSocket(socket.socket):
 class AsyncScripted(dns.asyncbackend.Socket):
     """Scripted socket for dns.asyncquery (handed out by a scripted Backend passed through the public backend= parameter)."""
 
-    def __init__(self, kind, frames, ev):
+    def __init__(self, kind, frames, ev, tail=b""):
         super().__init__(socket.AF_INET, kind)
-        self._sync = ScriptedSocket(kind, frames, ev)
+        self._sync = ScriptedSocket(kind, frames, ev, tail)
         self.sent = self._sync.sent
 
     async def close(self):
@@ -246,7 +294,7 @@ def exit_event(zone, relativize):
     return {"op": "exit", "zone": project_zone(zone, relativize), "open": open_txns, "wtxn": wtxn, "usable": usable}
 
 
-def replay_query(script, zclass, relativize, tid, try_first, use_async=False):
+def replay_query(script, zclass, relativize, tid, try_first, use_async=False, tail="none"):
     """The same transfer through dns.query.inbound_xfr: scripted sockets (dns.query.socket_factory), real framing,
     real message parsing, the real read loop.  Inbound.process_message is wrapped (in this process only) to record
     the per-message events.  With try_first the UDP attempt that ends in UseTCP is followed by the library's own
@@ -263,7 +311,7 @@ def replay_query(script, zclass, relativize, tid, try_first, use_async=False):
     mode = ("aquery" if use_async else "query") + ("-tryfirst" if try_first else "")
     trace = {"tid": tid, "zclass": zclass, "rel": relativize, "via": mode, "req": req, "udp": udp, "base": base,
              "init": init, "zone0": project_zone(zone, relativize), "msgs": msgs, "kind": script["kind"],
-             "fault": script["fault"]["k"], "target": target, "ev": []}
+             "fault": script["fault"]["k"], "target": target, "tail": tail, "ev": []}
     traces = [trace]
     serial = (base[0] * 65536 + base[1]) if req == "ixfr" else None
     query, _ = dns.xfr.make_query(zone, serial)
@@ -275,6 +323,13 @@ def replay_query(script, zclass, relativize, tid, try_first, use_async=False):
     def frames(ms):
         return [build_message(m, req, query, relativize, "wire-bytes", None) for m in ms]
 
+    # how the TCP connection ends once the scripted messages are out: "none" = clean EOF on the message boundary,
+    # "len" = EOF after one octet of the next length prefix, "body" = EOF in the middle of the next message
+    if tail == "none" or udp:
+        tail_bytes = b""
+    else:
+        nxt = frames([{"rcode": 0, "q": "none", "rrs": (msgs[-1]["rrs"] if msgs and msgs[-1]["rrs"] else soa)}])[0]
+        tail_bytes = b"\x00" if tail == "len" else struct.pack("!H", len(nxt)) + nxt[:len(nxt) // 2]
     sockets = []
 
     Sock = AsyncScripted if use_async else ScriptedSocket
@@ -295,7 +350,7 @@ def replay_query(script, zclass, relativize, tid, try_first, use_async=False):
             current["n"] = 0
             sock = Sock(kind, frames(tcp_msgs), second["ev"])
         else:
-            sock = Sock(kind, frames(msgs), current["trace"]["ev"])
+            sock = Sock(kind, frames(msgs), current["trace"]["ev"], tail_bytes)
         sockets.append(sock)
         return sock
 
@@ -365,9 +420,9 @@ def replay_query(script, zclass, relativize, tid, try_first, use_async=False):
     return trace
 
 
-def replay(script, zclass, relativize, via, tid):
+def replay(script, zclass, relativize, via, tid, tail="none"):
     if via in ("query", "query-tryfirst", "aquery", "aquery-tryfirst"):
-        return replay_query(script, zclass, relativize, tid, via.endswith("-tryfirst"), via.startswith("aquery"))
+        return replay_query(script, zclass, relativize, tid, via.endswith("-tryfirst"), via.startswith("aquery"), tail)
     del _CREATED[:]
     init = sorted([r[0], r[1], r[2], list(r[3])] for r in script["zone0"])
     zone = make_zone(zclass, relativize, init)
@@ -425,22 +480,26 @@ def _alarm(signum, frame):
 
 
 def run_job(job):
-    script, zclass, relativize, via, tid = job
-    # watchdog: dns.versioned.Zone.writer() blocks for ever if an earlier transaction was left open;
-    # a stuck job becomes an event nobody matches instead of a hung check
+    script, zclass, relativize, via, tid = job[:5]
+    tail = job[5] if len(job) > 5 else "none"
+    # hang detection without wall-clock time: blocking waits raise Stuck through the threading shim above, busy
+    # loops run into a CPU-time limit; the wall-clock timer is a very large last resort only
     try:
+        signal.signal(signal.SIGVTALRM, _alarm)
         signal.signal(signal.SIGALRM, _alarm)
-        signal.setitimer(signal.ITIMER_REAL, WATCHDOG_S)
+        signal.setitimer(signal.ITIMER_VIRTUAL, CPU_LIMIT_S)
+        signal.setitimer(signal.ITIMER_REAL, LAST_RESORT_S)
     except ValueError:  # not in the main thread
         pass
     try:
-        return replay(script, zclass, relativize, via, tid)
+        return replay(script, zclass, relativize, via, tid, tail)
     except (Exception, Stuck) as e:  # a driver failure becomes an event nobody matches
         return {"tid": tid, "zclass": zclass, "rel": relativize, "via": via, "req": "axfr", "udp": False, "base": [],
                 "init": [], "zone0": [], "msgs": [], "kind": "driver-error", "fault": "none", "target": [],
                 "ev": [{"op": "driver-error", "exc": repr(e)}]}
     finally:
         try:
+            signal.setitimer(signal.ITIMER_VIRTUAL, 0)
             signal.setitimer(signal.ITIMER_REAL, 0)
         except ValueError:
             pass
